@@ -207,7 +207,7 @@ def check_case(case):
 def valid_case(case):
     try:
         return case["cls"] in CTXS and len(case["names"]) == NN and len(set(case["names"])) == NN and all(isinstance(n, str) and n for n in case["names"]) and case["template"] in templates(case["cls"])
-    except Exception:
+    except (Exception, HarnessError):
         return False
 
 
